@@ -56,6 +56,9 @@ def collect(P):
     # MmapDirectory's lock guard (ReleaseLockFile): does its drop remove the lock file? (it must not: flock locks belong to the inode)
     P.flag("MMAP_LOCK_RELEASE_UNLINKS", "src/directory/mmap_directory/mod.rs",
            r"impl Drop for ReleaseLockFile \{\s*fn drop\(&mut self\) \{[^}]*?(remove_file|\.delete\()")
+    # IndexWriterStatus: Inner::kill clears is_alive AND drops the status's copy of the receiver (wakes a blocked sender)
+    P.flag("KILL_DROPS_RECEIVER", "src/indexer/index_writer_status.rs",
+           r"fn kill\(&self\) \{[^}]*is_alive\.store\(false[^}]*self\.receive_channel[^}]*\.take\(\);")
     # MmapDirectory::sync_directory (unix): opens the root and fsyncs it
     P.flag("SYNC_DIRECTORY_FSYNCS_ROOT", "src/directory/mmap_directory/mod.rs",
            r"#\[cfg\(not\(windows\)\)\]\s*fn sync_directory\(&self\) -> Result<\(\), io::Error> \{.{0,400}?open\(&self\.inner\.root_path\)\?;\s*fd\.sync_(data|all)\(\)\?;")
